@@ -77,7 +77,8 @@ def cases(tier, seed):
                         yield dict(kind="pair", lat=lname, W=W, E=E, latband=1, form="1d", dtype="i8")
                     yield dict(kind="pair", lat=lname, W=W, E=E, latband=1, form="1d", dtype="f4")
     for bad in ("w_lt_-180", "e_gt_360", "w_gt_360", "e_lt_-180", "span_gt_360", "s_lt_-90", "n_gt_90",
-                "lon_gt_360", "lon_lt_-180", "lat_gt_90", "lat_lt_-90"):
+                "lon_gt_360", "lon_lt_-180", "lat_gt_90", "lat_lt_-90", "w_gt_360_e_small", "e_lt_-180_w_big", "w_lt_-180_e_big",
+                "e_gt_360_w_small", "s_gt_90_n_below", "n_lt_-90_s_above"):
         for delta in (5.0, 0.5, 1e-3, 1e-9):
             yield dict(kind="invalid", bad=bad, delta=delta)
     # out-of-range coordinates are rejected whatever the region looks like: ordinary, crossing 0, crossing 180, full globe in
@@ -104,7 +105,11 @@ def run(case, rec):
             [("w_lt_-180", [-180.0 - d_, 10.0, -10.0, 10.0]), ("e_gt_360", [10.0, 360.0 + d_, -10.0, 10.0]),
              ("w_gt_360", [360.0 + d_, 360.0 + 2 * d_, -10.0, 10.0]), ("e_lt_-180", [-180.0 - 2 * d_, -180.0 - d_, -10.0, 10.0]),
              ("span_gt_360", [-180.0, 180.0 + d_, -10.0, 10.0]), ("s_lt_-90", [0.0, 10.0, -90.0 - d_, 10.0]),
-             ("n_gt_90", [0.0, 10.0, -10.0, 90.0 + d_])]
+             ("n_gt_90", [0.0, 10.0, -10.0, 90.0 + d_]),
+             # one bound out of range while the other is far on the other side (span still <= 360), and S / N both off one end
+             ("w_gt_360_e_small", [360.0 + d_, 20.0, -10.0, 10.0]), ("e_lt_-180_w_big", [-100.0, -180.0 - d_, -10.0, 10.0]),
+             ("w_lt_-180_e_big", [-180.0 - d_, 170.0, -10.0, 10.0]), ("e_gt_360_w_small", [10.0, 360.0 + d_, -10.0, 10.0]),
+             ("s_gt_90_n_below", [0.0, 10.0, 90.0 + d_, 50.0]), ("n_lt_-90_s_above", [0.0, 10.0, -50.0, -90.0 - d_])]
         ).get(bad, [0.0, 20.0, -10.0, 10.0])
         if case.get("reg") is not None:
             reg = [case["reg"][0], case["reg"][1], -10.0, 10.0]
